@@ -11,6 +11,26 @@ CHECKS = {
    text="Exhaustive enumeration of the numeric boundary grid (5 operators x all ordered pairs of 105 int/uint/double/bool boundary values, non-numeric representatives, unary minus) plus 20k (quick) / 2M (thorough) proptest-generated random operand pairs, each in literal (folded) and bound (VM) form and under both build profiles, against an i128/IEEE reference model. Exploration: holds on everything enumerated/generated, no claim beyond.",
    note="Trusted: host IEEE-754 f64 arithmetic and i128 arithmetic as the reference; the model's Unspecified set (bool+bool, double % x, -bool, int with uint above i64::MAX may fail) is not asserted.",
    technique="exhaustive boundary-grid enumeration + proptest random operands vs i128/IEEE reference model, literal-vs-bound differential, two build profiles"),
+ "C05": dict(
+   text="Exhaustive enumeration of every one-operator tree / context (|| && ?: ! bool() match, macro predicates) over a 33-atom set (a truthy and a falsy value of every type, failing atoms, an unbound variable, call-recording bound functions) and every two-operator tree over a reduced 10-atom set, plus 15k/600k proptest-generated random trees to depth 5; each tree is run with value atoms bound (VM) and as literals (folder) and compared with a reference model of the statement: result value / is-failure AND the exact multiset of recorded calls (laziness). Exploration.",
+   note="Trusted: the reference model in model.rs (one rule per sentence of the statement, explicit Unspecified); which of two failing operands' error surfaces and bool(<string>) are not asserted.",
+   technique="exhaustive small-tree enumeration + proptest random trees vs reference model, laziness observed through call-recording bound functions, literal-vs-bound differential"),
+ "C06": dict(
+   text="Exhaustive grids: lists of size 0..5 x every index in [-size-2,size+2] as int and uint plus extreme and non-integer indices; all map-literal entry sequences of length 0..3 over two keys (every duplicate pattern) x lookups by m[k] and m.k; in / + / size over one value of every type on both sides; nested index/field paths; plus 20k/600k proptest-generated random cases (elements of every type, nesting <= 3). Three forms per case: literal collection (folded), literal with one bound element (MKLIST/MKDICT), bound collection. Oracle: reference model of the statement. Exploration.",
+   note="Trusted: model.rs rules for index/in/concat/size; indexing strings/bytes, non-string keys, size(map), cross-type membership are not asserted.",
+   technique="exhaustive index/key grids + proptest random collections vs reference model; three-form (folded / run-time constructed / bound) differential"),
+ "C07": dict(
+   text="Grid of list lengths {0..3,5,31,32,33,40,64} (thorough 0..66) x deciding positions x 20 macro templates (all/exists/exists_one/filter/map/reduce with early exit, failing bodies, nested same-name variables, outer variables, stored programs) x outer binding of the loop variable present/absent, plus 6k/200k proptest-generated cases; oracle = the defining folds (model.rs), the exact visit log recorded by an echoing bound function, and the caller's bindings after execution. Map iteration: permutation + identical order across repeated executions, separately built equal maps, and literal vs bound. Exploration.",
+   note="Trusted: model.rs macro folds; only 'one fixed order' is required of map keys, not which one.",
+   technique="enumerated length x position x template grid + proptest random cases vs reference folds; visit order via recording function; metamorphic order-stability check for maps"),
+ "C15": dict(
+   text="Exhaustive grids: 7 unary math built-ins x 175 boundary numbers and pow x 175^2 pairs (both build profiles); splitAt x every byte index; 16 string built-ins x 34 haystacks x 27 needles; 4 regex built-ins x 46 patterns x 18 haystacks vs the regex crate called directly; a shape grid of 32 built-ins x all argument tuples of arity 0..4 (free) / 0..3 (method) from a one-value-per-type pool that must fail unless the dispatch signature accepts them; plus 24k/1M proptest-generated random calls. Literal (folded) and bound (VM) form of every call. Oracle: naive reference implementations in the harness. Exploration.",
+   note="Trusted: std's Unicode case tables and the regex crate as references; pow(double, .) within 1e-9 relative; unspecified points listed in DESIGN 3.3 are not asserted.",
+   technique="exhaustive built-in x argument grids + proptest random calls vs naive reference implementations and the regex crate (differential); shape table enumeration"),
+ "C16": dict(
+   text="Exhaustive grids: timestamp x duration boundary pools for + - and the three laws with i128 nanosecond range arithmetic; 10 calendar accessors at month/year boundaries of 21 boundary years, zone-less vs 'UTC'; ALL 597 IANA zone names x fixed instants and UTC-offset transition instants +-1 s against the harness's own civil-from-days algorithm (offsets from chrono-tz); invalid zone names; duration accessors; uomConvert identity/inverse/transitivity/table agreement over all in-category unit pairs and every alias, cross-category and unknown units must fail; plus ~240k proptest-generated random cases. Both build profiles. Exploration.",
+   note="Trusted: chrono-tz UTC offsets per instant (offsets only), the harness's table of exact unit definitions (rel 5e-7), Hinnant's civil-from-days algorithm.",
+   technique="exhaustive boundary/zone/unit grids + proptest random instants vs independent calendar algorithm and i128 range model; algebraic laws (inverse, transitivity) as metamorphic relations"),
  "C09": dict(
    text="Metamorphic search: proptest-generated full-language expressions over an environment of bound/unbound variables; every variable subset (all subsets up to 4 variables, sampled beyond) is replaced by literals of the bound values and literals are hoisted into fresh variables; all forms must evaluate to the same canonical value or the same error variant (compiler's evaluator vs VM). A seed grid enumerates the constructs the statement names x one operand of every type. Clock reads are checked by compiling, sleeping 30 ms and requiring the result not to predate execution. Exploration.",
    note="Trusted: rendering of values as literals (checked independently by C13); error messages are not compared; built-ins are not rebound.",
